@@ -55,6 +55,26 @@ def dotted(n):
 
 
 _RF_CACHE = {}
+SESSION_WRAPPERS = {}      # id(FunctionDef node of a decorator's wrapper) -> session class it stands in for
+
+
+def find_session_wrappers(world, ev, session_classes):
+    """Methods of session classes that carry user decorators: the decorated value (a wrapper
+    closure) is evaluated once; its function node is treated as a method of that class."""
+    SESSION_WRAPPERS.clear()
+    for c in session_classes:
+        for st in c.node.body:
+            if isinstance(st, ast.FunctionDef) and any(not (isinstance(d, ast.Name) and d.id in ("classmethod", "staticmethod", "property"))
+                                                       for d in st.decorator_list):
+                try:
+                    got = ev.getattr(c, st.name, world.static.fork(), ("<rule>", 0, st.name))
+                except Exception:
+                    continue
+                for _, v in got:
+                    from ..terms import Bound
+                    f = v.func if isinstance(v, Bound) else v
+                    if isinstance(f, FuncV) and f.node is not st:
+                        SESSION_WRAPPERS[id(f.node)] = c
 
 
 def returns_fresh(world, f, depth=0):
@@ -102,6 +122,13 @@ class FuncInfo(object):
         self.self_name = params[0] if self.owner and params and not decos & {"staticmethod", "classmethod"} else None
         self.cls_name = params[0] if self.owner and params and "classmethod" in decos else None
         self.is_session = self.owner is not None and self.owner in session_classes
+        wrapped_owner = SESSION_WRAPPERS.get(id(node))
+        if wrapped_owner is not None and params:
+            # the function a user decorator returns in place of a session-class method:
+            # its first parameter is the session instance
+            self.owner = wrapped_owner
+            self.self_name = params[0]
+            self.is_session = True
         self.is_init = node.name == "__init__" and self.self_name is not None
         self.own_stmts = list(self._own(node))
         self.locals_assigned = {}
@@ -140,6 +167,8 @@ class FuncInfo(object):
         while stack:
             n = stack.pop()
             yield n
+            if isinstance(n, (ast.FunctionDef, ast.AsyncFunctionDef, ast.ClassDef)):
+                continue        # a nested def: the name binding only, its body is analysed on its own
             for c in ast.iter_child_nodes(n):
                 if isinstance(c, (ast.FunctionDef, ast.AsyncFunctionDef, ast.ClassDef)):
                     yield c     # the def itself (name binding), not its body
@@ -624,6 +653,7 @@ def check(ctx, world):
     positive_control(ctx)
     ev = session.new_ev(world)
     sess = session_class_set(world, ev)
+    find_session_wrappers(world, ev, sess)
     an = run_analyzer(world, sess)
     bad = {}
     for (rule, inst, detail, site) in an.findings:
